@@ -486,6 +486,30 @@ def native_replay(scratch, harness_name, vectors):
     return {"result": m.group(1), "detail": m.group(2)}
 
 
+def native_search(scratch, harness_name, obligation_descs, runs=1500):
+    """Kani's concrete playback sometimes omits choices (then the vectors do not reproduce). The
+    verifier has named the failed obligation; look for an input that fails the same obligation on
+    the natively compiled real code by running the harness with pseudo-random choices."""
+    binp, err = build_replay_bin(scratch)
+    if binp is None:
+        return None
+    wanted = [re.sub(r'[^a-z0-9_]', '', d.strip().strip('"')) for d in obligation_descs]
+    wanted = [w for w in wanted if len(w) > 8]
+    t0 = time.time()
+    for seed in range(runs):
+        if time.time() - t0 > 240:
+            break
+        try:
+            p = subprocess.run([binp, "--random", harness_name, str(seed)], stdout=subprocess.PIPE, stderr=subprocess.STDOUT, text=True, timeout=30)
+        except subprocess.TimeoutExpired:
+            continue
+        m = re.search(r"\[replay\] panic: (.*)", p.stdout)
+        if m and any(w in m.group(1) for w in wanted):
+            return {"result": "reproduced", "random_seed": seed,
+                    "detail": "%s (input found by native search with pseudo-random choices, seed %d; the verifier's playback vectors were incomplete)" % (m.group(1), seed)}
+    return None
+
+
 # --------------------------------------------------------------------------- Verus lemmas
 
 LEMMAS = {
@@ -869,9 +893,13 @@ def check(prop, tier, keep=False, only=None):
             nat = {"result": "no-vectors", "detail": "Kani produced no concrete playback"}
             if r.get("playback") is not None:
                 nat = native_replay(scratch, h.name, r["playback"])
+            if nat["result"] not in ("reproduced",) and not (nat["result"] == "timeout"):
+                found = native_search(scratch, h.name, [fc["description"] for fc in r["failed_checks"]])
+                if found:
+                    nat = found
             doc = {"property": prop, "engine": "kani", "harness": h.name, "harness_path": h.path, "flavour": h.flavour,
                    "obligation": descs, "failed_checks": r["failed_checks"], "vectors": r.get("playback"),
-                   "native_replay": nat, "verifier_output": r["raw"][-6000:],
+                   "native_replay": nat, "random_seed": nat.get("random_seed"), "verifier_output": r["raw"][-6000:],
                    "how_to_replay": "python3 verif.py replay %s" % os.path.relpath(rp, HERE)}
             json.dump(doc, open(rp, "w"), indent=1)
             hang = nat["result"] == "timeout" and any(fc["description"].startswith("unwinding assertion") for fc in r["failed_checks"])
@@ -952,10 +980,21 @@ def replay(path):
         rc = check_c19("quick")
         print("type-level re-check on /repo's current tree: %s" % ("violation reproduced" if rc == 1 else "no violation" if rc == 0 else "undecided"))
         return 1 if rc == 1 else 0
-    if doc.get("engine") != "kani" or not doc.get("vectors"):
+    if (doc.get("engine") != "kani" or not doc.get("vectors")) and doc.get("random_seed") is None:
         print("replay file carries no input vectors (obligation: %s); verifier output follows" % doc.get("obligation", "")[:200])
         print(doc.get("verifier_output", ""))
         return 1
+    if doc.get("engine") == "kani" and doc.get("random_seed") is not None:
+        scratch = make_scratch()
+        try:
+            write_dispatch(scratch, discover())
+            binp, err = build_replay_bin(scratch)
+            p = subprocess.run([binp, "--random", doc["harness"], str(doc["random_seed"])], stdout=subprocess.PIPE, stderr=subprocess.STDOUT, text=True, timeout=120)
+            m = re.search(r"\[replay\] panic: (.*)", p.stdout)
+            print("native replay of %s (seed %d) on /repo's current tree: %s" % (doc["harness"], doc["random_seed"], ("reproduced " + m.group(1)) if m else "passed"))
+            return 1 if m else 0
+        finally:
+            shutil.rmtree(scratch, ignore_errors=True)
     scratch = make_scratch()
     try:
         write_dispatch(scratch, discover())
